@@ -278,6 +278,17 @@ def _resolve(ev, expr):
 
 
 def _start_time_shape(ctx, fi):
+    try:
+        return _start_time_shape_of(ctx, fi)
+    except AnalysisError:
+        # re-expressed through helpers / a generalised sibling: judge the written-out form
+        ff = ctx.norm.flat(fi, depth=3)
+        if ast.dump(ff.node) == ast.dump(fi.node):
+            raise
+        return _start_time_shape_of(ctx, ff)
+
+
+def _start_time_shape_of(ctx, fi):
     chk = ctx.chk
     op_p, mid_p = fi.params[1], fi.params[2]
     rets = [n for n in own_nodes(fi.node) if isinstance(n, ast.Return) and n.value is not None]
